@@ -56,6 +56,34 @@ let idxsets : (string, string * dd) Hashtbl.t = Hashtbl.create 7   (* index set 
 
 let xfiles : (string, string * dd option list) Hashtbl.t = Hashtbl.create 7
 
+(* ---- C17: registry state machine (extracted) ---- *)
+let ls = ref ls_init
+let dom_ids : (string, int) Hashtbl.t = Hashtbl.create 7
+let forest_ids : (string, int) Hashtbl.t = Hashtbl.create 7     (* name -> fid *)
+let edge_ids : (string, int) Hashtbl.t = Hashtbl.create 31
+let next_dom = ref 0
+let next_edge = ref 0
+let dead_forests : (string, unit) Hashtbl.t = Hashtbl.create 7
+let dead_doms : (string, unit) Hashtbl.t = Hashtbl.create 7
+let lstep_do o = ls := lstep !ls o
+let edge_forest_name : (string, string) Hashtbl.t = Hashtbl.create 31   (* every edge ever defined *)
+let edge_attached name =
+  match Hashtbl.find_opt edge_ids name with
+  | None -> true
+  | Some id ->
+    List.exists (fun e -> int_of_nat e.le_id = id && e.le_forest <> None) !ls.ls_edges
+let note_edge name fname =
+  (* called whenever the implementation creates edge [name] in forest [fname] *)
+  (match Hashtbl.find_opt edge_ids name with
+   | Some id -> lstep_do (LDropEdge (nat_of_int id))
+   | None -> ());
+  incr next_edge;
+  Hashtbl.replace edge_ids name !next_edge;
+  Hashtbl.replace edge_forest_name name fname;
+  (match Hashtbl.find_opt forest_ids fname with
+   | Some fid -> lstep_do (LNewEdge (nat_of_int !next_edge, nat_of_int fid))
+   | None -> ())
+
 let line = ref 0
 let emit s = Printf.printf "@%d %s\n" !line s
 
@@ -273,12 +301,108 @@ let parse_audit (obs : string) =
            d_del = (match get "del" with "pess" -> DPess | "opt" -> DOpt | _ -> DNever);
            d_zombies = !zombies }
 
+(* ---- C16: documented precondition checks of apply (domain, set/relation) ---- *)
+let forest_of_edge name = Hashtbl.find_opt edge_forest_name name
+
+let apply_precheck r fn op a b =
+  (* the result edge exists (attached to fn) whatever happens *)
+  let detached x = Hashtbl.mem edge_ids x && not (edge_attached x) in
+  if detached a || detached b then Some "NOT_IMPLEMENTED"
+  else
+    match forest_of_edge a, forest_of_edge b, Hashtbl.find_opt fors fn with
+    | Some fa, Some fb, Some fr ->
+      (match Hashtbl.find_opt fors fa, Hashtbl.find_opt fors fb with
+       | Some fa, Some fb ->
+         if fa.fdom <> fr.fdom || fb.fdom <> fr.fdom then Some "DOMAIN_MISMATCH"
+         else
+           let shape_ok = match op with
+             | "cross" -> (not fa.rel) && (not fb.rel) && fr.rel
+             | "post" | "pre" | "vm" | "reach_fs" | "reach_nofs" | "reach_sat"
+             | "rreach_fs" | "rreach_nofs" | "rreach_sat" -> (not fa.rel) && fb.rel && (not fr.rel)
+             | "mv" -> fa.rel && (not fb.rel) && (not fr.rel)
+             | _ -> fa.rel = fr.rel && fb.rel = fr.rel in
+           if not shape_ok then Some "TYPE_MISMATCH" else None
+       | _ -> None)
+    | _ -> None
+
 (* ---- commands ---- *)
 
-let run toks =
+let registry_note toks =
   match toks with
+  | ("coll" | "minterm" | "const" | "var" | "apply" | "unary" | "satpre") :: n :: fn :: _ -> note_edge n fn
+  | "read" :: _ :: fn :: names -> List.iter (fun n -> note_edge n fn) names
+  | "readnew" :: _ :: fn :: _ :: names -> List.iter (fun n -> note_edge n fn) names
+  | "copyedge" :: b :: a :: _ ->
+    (match Hashtbl.find_opt edge_forest_name a with
+     | Some fn when edge_attached a -> note_edge b fn
+     | _ -> ())
+  | "release" :: a :: _ ->
+    (match Hashtbl.find_opt edge_ids a with
+     | Some id -> lstep_do (LDropEdge (nat_of_int id)); Hashtbl.remove edge_ids a
+     | None -> ())
+  | _ -> ()
+
+let rec run toks =
+  match toks with
+  | "apply" :: r :: fn :: op :: a :: b :: _
+    when (match apply_precheck r fn op a b with Some _ -> true | None -> false) ->
+    Hashtbl.remove edges r; Hashtbl.remove evtabs r;
+    (match apply_precheck r fn op a b with Some c -> raise (Err c) | None -> ())
   | "domain" :: d :: sizes ->
-    Hashtbl.replace doms d (Array.of_list (List.map int_of_string sizes))
+    Hashtbl.replace doms d (Array.of_list (List.map int_of_string sizes));
+    incr next_dom;
+    Hashtbl.replace dom_ids d !next_dom;
+    lstep_do (LCreateDomain (nat_of_int !next_dom))
+  | "init" :: _ -> lstep_do LInitialize
+  | "cleanup" :: _ ->
+    lstep_do LCleanup;
+    Hashtbl.reset edges; Hashtbl.reset evtabs; Hashtbl.reset fors; Hashtbl.reset doms;
+    Hashtbl.reset forest_ids; Hashtbl.reset dom_ids; Hashtbl.reset edge_ids; Hashtbl.reset dead_forests;
+    Hashtbl.reset edge_forest_name; Hashtbl.reset idxsets; Hashtbl.reset xfiles
+  | "destroyforest" :: fn :: _ ->
+    (match Hashtbl.find_opt forest_ids fn with
+     | Some fid -> lstep_do (LDestroyForest (nat_of_int fid))
+     | None -> ());
+    Hashtbl.replace dead_forests fn ();
+    Hashtbl.iter (fun n (fn', _) -> if fn' = fn then Hashtbl.remove edges n) (Hashtbl.copy edges);
+    Hashtbl.iter (fun n (fn', _) -> if fn' = fn then Hashtbl.remove evtabs n) (Hashtbl.copy evtabs)
+  | "destroydomain" :: d :: _ ->
+    Hashtbl.replace dead_doms d ();
+    (match Hashtbl.find_opt dom_ids d with
+     | Some did -> lstep_do (LDestroyDomain (nat_of_int did))
+     | None -> ());
+    Hashtbl.iter (fun fn f -> if f.fdom = d then begin
+        Hashtbl.replace dead_forests fn ();
+        Hashtbl.iter (fun n (fn', _) -> if fn' = fn then Hashtbl.remove edges n) (Hashtbl.copy edges);
+        Hashtbl.iter (fun n (fn', _) -> if fn' = fn then Hashtbl.remove evtabs n) (Hashtbl.copy evtabs)
+      end) (Hashtbl.copy fors)
+  | "attached" :: a :: _ ->
+    if not (Hashtbl.mem edge_ids a) then raise Unsupported;
+    emit ("attached " ^ (if edge_attached a then "1" else "0"))
+  | "show" :: a :: _ when Hashtbl.mem edge_ids a && not (edge_attached a) ->
+    emit (a ^ " detached attached=0")
+  | "evalx" :: a :: _ when Hashtbl.mem edge_ids a && not (edge_attached a) ->
+    (match Hashtbl.find_opt edge_forest_name a with
+     | Some fn when (match Hashtbl.find_opt fors fn with
+         | Some f -> Hashtbl.mem doms f.fdom && not (Hashtbl.mem dead_doms f.fdom) | None -> false) ->
+       raise (Err "FOREST_MISMATCH")
+     | _ -> raise Unsupported)
+  | "evalx" :: a :: _ ->
+    let (fn, t) = get_edge a in
+    let f = get_forest fn in
+    if f.lab <> MT then raise Unsupported;
+    emit ("evalx " ^ string_of_int (int_of_z (eval f.rule (nat_of_int (nlev f)) t (fun _ -> O))))
+  | "iterpast" :: a :: _ ->
+    if Hashtbl.mem edge_ids a && edge_attached a then raise (Err "INVALID_ITERATOR") else raise Unsupported
+  | "constinto" :: e :: fn :: _ ->
+    (match Hashtbl.find_opt edge_forest_name e with
+     | Some fe when fe <> fn && edge_attached e && not (Hashtbl.mem dead_forests fn) ->
+       raise (Err "FOREST_MISMATCH")
+     | _ ->
+       (* defined behaviour (same forest): the edge changes; not modelled *)
+       Hashtbl.remove edges e; Hashtbl.remove evtabs e; raise Unsupported)
+  | "applyinto" :: x :: _ ->
+    Hashtbl.remove edges x; Hashtbl.remove evtabs x; raise Unsupported
   | "forest" :: fnm :: d :: sr :: rg :: lb :: rl :: _ ->
     let f = { fdom = d; rel = (sr = "rel");
               range = (match rg with "bool" -> RBool | "int" -> RInt | _ -> RReal);
@@ -286,7 +410,13 @@ let run toks =
               rule = (match rl with "fr" -> FR | "qr" -> QR | _ -> IR);
               sizes = Hashtbl.find doms d;
               order = Array.init (Array.length (Hashtbl.find doms d)) (fun i -> i + 1) } in
-    Hashtbl.replace fors fnm f
+    Hashtbl.replace fors fnm f;
+    Hashtbl.remove dead_forests fnm;
+    let did = (match Hashtbl.find_opt dom_ids d with Some i -> i | None -> 0) in
+    let fid = int_of_nat !ls.ls_next_fid in
+    lstep_do (LCreateForest (nat_of_int did));
+    Hashtbl.replace forest_ids fnm fid;
+    if List.mem "showfid=1" toks then emit (Printf.sprintf "forest fid=%d" fid)
   | "coll" :: a :: fn :: mode :: dv :: rest when (try (get_forest fn).lab = EVP with _ -> false) ->
     Hashtbl.remove edges a; Hashtbl.remove evtabs a;
     let f = get_forest fn in
@@ -344,6 +474,10 @@ let run toks =
     Hashtbl.remove edges a; Hashtbl.remove evtabs a;
     let f = get_forest fn in
     if f.lab <> MT then raise Unsupported;
+    if f.range = RInt then
+      (match getIntegerHandle (z_of_int (int_of_string v)) with
+       | Err c -> raise (Err (ocaml_string c))
+       | Ok _ -> ());
     let t = const_dd (szf f) f.rule (nat_of_int (nlev f)) (z_of_int (value f v)) in
     set_edge a fn t; show a
   | "var" :: a :: fn :: k :: up :: terms ->
@@ -416,7 +550,8 @@ let run toks =
     let l = nat_of_int (nlev fr) in
     (* undefined scalar points *)
     let tabA = table (szf fa) fa.rule l ta and tabB = table (szf fb) fb.rule l tb in
-    if List.exists2 (fun x y -> scalar2_undefined o x y) tabA tabB then raise Unsupported;
+    (* documented: division by zero raises DIVIDE_BY_ZERO *)
+    if List.exists2 (fun x y -> scalar2_undefined o x y) tabA tabB then raise (Err "DIVIDE_BY_ZERO");
     let t = apply2 (szf fr) fsc fa.rule fb.rule fr.rule l O ta tb in
     set_edge r fn t; show r
   | "unary" :: r :: fn :: op :: a :: _ when op <> "index" ->
@@ -628,6 +763,16 @@ let run toks =
     let l = enum (szf f) f.rule (nat_of_int (nlev f)) t m in
     emit (Stdlib.String.concat " " ("iter" :: List.map (fun (x, v) ->
         asg_str f x ^ "=" ^ string_of_int (int_of_z v)) l))
+  | "iter2" :: _it :: a :: limit :: mask ->
+    let (fn, t) = get_edge a in
+    let f = get_forest fn in
+    if f.lab <> MT then raise Unsupported;
+    let m = if mask = [] then [] else fst (parse_positions f mask) in
+    let l = enum (szf f) f.rule (nat_of_int (nlev f)) t m in
+    let limit = int_of_string limit in
+    let l = if limit < 0 then l else List.filteri (fun i _ -> i < limit) l in
+    emit (Stdlib.String.concat " " ("iter" :: List.map (fun (x, v) ->
+        asg_str f x ^ "=" ^ string_of_int (int_of_z v)) l))
   | "card" :: a :: _ ->
     let (fn, t) = get_edge a in
     let f = get_forest fn in
@@ -687,7 +832,9 @@ let () =
        let l = match Stdlib.String.index_opt l '#' with Some i -> Stdlib.String.sub l 0 i | None -> l in
        let toks = split l in
        if toks <> [] then
-         (try run toks with
+         (try (let r = (try run toks; None with e -> Some e) in
+               registry_note toks;
+               match r with Some e -> raise e | None -> ()) with
           | Unsupported -> ()
           | Err c -> emit ("ERR " ^ c))
      done
